@@ -6,7 +6,12 @@
 // fixed test domain) and a plain-Go reference refC(a,b) of what Combine is *named* to do,
 // rendered the same way.  A law case draws a triple and checks named behaviour, associativity
 // and the two-sided identity by comparing renderings; a sequence case compares the five
-// Reduce/FoldMap implementations with the plain loop acc = Combine(acc, x) from Empty().
+// Reduce/FoldMap implementations with the plain loop acc = Combine(acc, x) from Empty(); a history
+// case (hist.go) keeps every Combine result as returned and feeds it back, as left and as right
+// operand, into later Combines of two freshly constructed instances and the table's long-lived
+// one, re-reading every kept value afterwards.  Operands of container-valued instances are also
+// drawn large and lopsided (sizes.go).  The case drivers work on the type-erased view dyn
+// (dyn.go) so that they are compiled once, not once per instance type.
 // The per-arity builders (tuples_gen.go) are written by ./gen.
 package main
 
@@ -25,12 +30,9 @@ import (
 	"github.com/csgura/fp/hash"
 	"github.com/csgura/fp/hlist"
 	"github.com/csgura/fp/immutable"
-	"github.com/csgura/fp/iterator"
 	"github.com/csgura/fp/lazy"
-	"github.com/csgura/fp/list"
 	"github.com/csgura/fp/monoid"
 	"github.com/csgura/fp/semigroup"
-	"github.com/csgura/fp/seq"
 )
 
 // ---- instance descriptions ----------------------------------------------------------------
@@ -41,10 +43,16 @@ type inst[T any] struct {
 	combs []string // every library instance/combinator in the expression
 	sg    fp.Semigroup[T]
 	mo    fp.Monoid[T] // nil for semigroup-only instances
-	gen   func(r *rand.Rand) T
-	norm  func(T) string      // canonical rendering by content
-	refC  func(a, b T) string // plain-Go reference: rendering of what Combine(a,b) is named to be
-	refE  func() string       // plain-Go reference: rendering of Empty() (monoids)
+	// mkS / mkM build the instance again through new constructor calls, all the way down
+	// (monoid.Option(monoid.MergeSeq[int]()) twice gives two unrelated instance objects); for
+	// package-level variables (monoid.String) they return the variable. mkM is nil for
+	// semigroup-only instances. sg/mo above are the table's long-lived instance.
+	mkS  func() fp.Semigroup[T]
+	mkM  func() fp.Monoid[T]
+	gen  func(r *rand.Rand) T
+	norm func(T) string      // canonical rendering by content
+	refC func(a, b T) string // plain-Go reference: rendering of what Combine(a,b) is named to be
+	refE func() string       // plain-Go reference: rendering of Empty() (monoids)
 	// blame names the instance responsible when norm(Combine(a,b)) != refC(a,b): a component
 	// that is wrong on its own, else the combinator itself
 	blame  func(a, b T) string
@@ -59,13 +67,35 @@ type inst[T any] struct {
 func (in inst[T]) wrong(a, b T) bool { return in.norm(in.sg.Combine(a, b)) != in.refC(a, b) }
 func (in inst[T]) wrongE() bool      { return in.mo != nil && in.norm(in.mo.Empty()) != in.refE() }
 
+// withM / withS set the constructor of an instance description and build the table's instance.
+func (in inst[T]) withM(mk func() fp.Monoid[T]) inst[T] {
+	in.mkM = mk
+	in.mkS = func() fp.Semigroup[T] { return mk() }
+	in.mo = mk()
+	in.sg = in.mo
+	return in
+}
+
+func (in inst[T]) withS(mk func() fp.Semigroup[T]) inst[T] {
+	in.mkM, in.mo = nil, nil
+	in.mkS = mk
+	in.sg = mk()
+	return in
+}
+
+// the constructor of a package-level instance variable
+func constM[T any](m fp.Monoid[T]) func() fp.Monoid[T] { return func() fp.Monoid[T] { return m } }
+func constS[T any](s fp.Semigroup[T]) func() fp.Semigroup[T] {
+	return func() fp.Semigroup[T] { return s }
+}
+
 func leaf[T any](in inst[T]) inst[T] {
 	site := in.site
 	in.combs = []string{site}
 	in.blame = func(a, b T) string { return site }
 	in.blameE = func() string { return site }
-	if in.mo != nil && in.sg == nil {
-		in.sg = in.mo
+	if in.sg == nil {
+		panic("leaf without instance: " + in.name)
 	}
 	return in
 }
@@ -110,6 +140,13 @@ func fmtInt[T integer](v T) string { return fmt.Sprint(v) }
 var words = []string{"", "a", "b", "ab", "ba", "xyz", "-", "é"}
 
 func genStr(r *rand.Rand) string {
+	if n, _, ok := sizeHint(); ok {
+		b := make([]byte, n)
+		for i := range b {
+			b[i] = byte('a' + r.IntN(4))
+		}
+		return string(b)
+	}
 	if r.IntN(3) == 0 {
 		return words[r.IntN(len(words))]
 	}
@@ -150,46 +187,56 @@ func fmtFloat(f float64) string {
 
 // ---- leaf instances -----------------------------------------------------------------------
 
-func intSum[T integer](site string, m fp.Monoid[T], tname string) inst[T] {
-	return leaf(inst[T]{name: site + "[" + tname + "]", site: site, mo: m, gen: genInt[T], norm: fmtInt[T],
-		refC: func(a, b T) string { return fmtInt(a + b) }, refE: func() string { return "0" }, assoc: true, cheap: true})
+func intSum[T integer](site string, mk func() fp.Monoid[T], tname string) inst[T] {
+	return leaf(inst[T]{name: site + "[" + tname + "]", site: site, gen: genInt[T], norm: fmtInt[T],
+		refC: func(a, b T) string { return fmtInt(a + b) }, refE: func() string { return "0" }, assoc: true, cheap: true}.withM(mk))
 }
 
-func intProduct[T integer](site string, m fp.Monoid[T], tname string) inst[T] {
-	return leaf(inst[T]{name: site + "[" + tname + "]", site: site, mo: m, gen: genInt[T], norm: fmtInt[T],
-		refC: func(a, b T) string { return fmtInt(a * b) }, refE: func() string { return "1" }, assoc: true, cheap: true})
+func intProduct[T integer](site string, mk func() fp.Monoid[T], tname string) inst[T] {
+	return leaf(inst[T]{name: site + "[" + tname + "]", site: site, gen: genInt[T], norm: fmtInt[T],
+		refC: func(a, b T) string { return fmtInt(a * b) }, refE: func() string { return "1" }, assoc: true, cheap: true}.withM(mk))
 }
 
-func strConcat(site, name string, m fp.Monoid[string]) inst[string] {
-	return leaf(inst[string]{name: name, site: site, mo: m, gen: genStr, norm: strconv.Quote,
-		refC: func(a, b string) string { return strconv.Quote(a + b) }, refE: func() string { return `""` }, assoc: true, orderShows: true, cheap: true})
+func strConcat(site, name string, mk func() fp.Monoid[string]) inst[string] {
+	return leaf(inst[string]{name: name, site: site, gen: genStr, norm: strconv.Quote,
+		refC: func(a, b string) string { return strconv.Quote(a + b) }, refE: func() string { return `""` }, assoc: true, orderShows: true, cheap: true}.withM(mk))
 }
 
-func floatInst(site, name string, m fp.Monoid[float64], op func(a, b float64) float64, e string) inst[float64] {
-	return leaf(inst[float64]{name: name, site: site, mo: m, gen: genFloat, norm: fmtFloat,
-		refC: func(a, b float64) string { return fmtFloat(op(a, b)) }, refE: func() string { return e }, assoc: false})
+func floatInst(site, name string, mk func() fp.Monoid[float64], op func(a, b float64) float64, e string) inst[float64] {
+	return leaf(inst[float64]{name: name, site: site, gen: genFloat, norm: fmtFloat,
+		refC: func(a, b float64) string { return fmtFloat(op(a, b)) }, refE: func() string { return e }, assoc: false}.withM(mk))
 }
 
 func boolInst(site string, m fp.Monoid[bool], sg fp.Semigroup[bool], op func(a, b bool) bool, e bool) inst[bool] {
-	in := inst[bool]{name: site, site: site, mo: m, sg: sg, gen: func(r *rand.Rand) bool { return r.IntN(2) == 0 }, norm: strconv.FormatBool,
+	in := inst[bool]{name: site, site: site, gen: func(r *rand.Rand) bool { return r.IntN(2) == 0 }, norm: strconv.FormatBool,
 		refC: func(a, b bool) string { return strconv.FormatBool(op(a, b)) }, assoc: true, cheap: true}
 	if m != nil {
 		in.refE = func() string { return strconv.FormatBool(e) }
+		in = in.withM(constM(m))
+	} else {
+		in = in.withS(constS(sg))
 	}
 	return leaf(in)
 }
 
 func unitInst() inst[fp.Unit] {
-	return leaf(inst[fp.Unit]{name: "monoid.Unit", site: "monoid.Unit", mo: monoid.Unit, gen: func(*rand.Rand) fp.Unit { return fp.Unit{} },
-		norm: func(fp.Unit) string { return "()" }, refC: func(a, b fp.Unit) string { return "()" }, refE: func() string { return "()" }, assoc: true, cheap: true})
+	return leaf(inst[fp.Unit]{name: "monoid.Unit", site: "monoid.Unit", gen: func(*rand.Rand) fp.Unit { return fp.Unit{} },
+		norm: func(fp.Unit) string { return "()" }, refC: func(a, b fp.Unit) string { return "()" }, refE: func() string { return "()" }, assoc: true, cheap: true}.withM(constM(monoid.Unit)))
 }
 
 func hnilInst() inst[hlist.Nil] {
-	return leaf(inst[hlist.Nil]{name: "monoid.HNil", site: "monoid.HNil", mo: monoid.HNil, gen: func(*rand.Rand) hlist.Nil { return hlist.Nil{} },
-		norm: func(hlist.Nil) string { return "HNil" }, refC: func(a, b hlist.Nil) string { return "HNil" }, refE: func() string { return "HNil" }, assoc: true, cheap: true})
+	return leaf(inst[hlist.Nil]{name: "monoid.HNil", site: "monoid.HNil", gen: func(*rand.Rand) hlist.Nil { return hlist.Nil{} },
+		norm: func(hlist.Nil) string { return "HNil" }, refC: func(a, b hlist.Nil) string { return "HNil" }, refE: func() string { return "HNil" }, assoc: true, cheap: true}.withM(constM(monoid.HNil)))
 }
 
 func genInts(r *rand.Rand) []int {
+	if n, _, ok := sizeHint(); ok {
+		s := make([]int, n, n+r.IntN(3)*r.IntN(9)) // often with spare capacity
+		for i := range s {
+			s[i] = r.IntN(10)
+		}
+		return s
+	}
 	switch r.IntN(6) {
 	case 0:
 		return nil
@@ -214,19 +261,26 @@ func concatInts(a, b []int) string {
 }
 
 func mergeSeqInst() inst[fp.Seq[int]] {
-	return leaf(inst[fp.Seq[int]]{name: "monoid.MergeSeq[int]", site: "monoid.MergeSeq", mo: monoid.MergeSeq[int](),
+	return leaf(inst[fp.Seq[int]]{name: "monoid.MergeSeq[int]", site: "monoid.MergeSeq",
 		gen: func(r *rand.Rand) fp.Seq[int] { return genInts(r) }, norm: func(s fp.Seq[int]) string { return fmtInts(s) },
-		refC: func(a, b fp.Seq[int]) string { return concatInts(a, b) }, refE: func() string { return "[]" }, assoc: true, orderShows: true, cheap: true})
+		refC: func(a, b fp.Seq[int]) string { return concatInts(a, b) }, refE: func() string { return "[]" }, assoc: true, orderShows: true, cheap: true}.withM(monoid.MergeSeq[int]))
 }
 
 func mergeSliceInst() inst[[]int] {
-	return leaf(inst[[]int]{name: "monoid.MergeSlice[int]", site: "monoid.MergeSlice", mo: monoid.MergeSlice[int](),
-		gen: genInts, norm: fmtInts, refC: concatInts, refE: func() string { return "[]" }, assoc: true, orderShows: true, cheap: true})
+	return leaf(inst[[]int]{name: "monoid.MergeSlice[int]", site: "monoid.MergeSlice",
+		gen: genInts, norm: fmtInts, refC: concatInts, refE: func() string { return "[]" }, assoc: true, orderShows: true, cheap: true}.withM(monoid.MergeSlice[int]))
 }
 
 var mapKeys = []string{"a", "b", "c", "d", "e"}
 
 func genGoMap(r *rand.Rand) map[string]int {
+	if n, u, ok := sizeHint(); ok {
+		m := make(map[string]int, r.IntN(2)*n)
+		for _, k := range pickDistinct(r, n, u) {
+			m[keyName(k)] = r.IntN(100)
+		}
+		return m
+	}
 	switch r.IntN(7) {
 	case 0:
 		return nil
@@ -271,8 +325,8 @@ func unionRight(a, b map[string]int) string {
 }
 
 func mergeGoMapInst() inst[map[string]int] {
-	return leaf(inst[map[string]int]{name: "monoid.MergeGoMap[string,int]", site: "monoid.MergeGoMap", mo: monoid.MergeGoMap[string, int](),
-		gen: genGoMap, norm: fmtGoMap, refC: unionRight, refE: func() string { return "{}" }, assoc: true, orderShows: true, cheap: true})
+	return leaf(inst[map[string]int]{name: "monoid.MergeGoMap[string,int]", site: "monoid.MergeGoMap",
+		gen: genGoMap, norm: fmtGoMap, refC: unionRight, refE: func() string { return "{}" }, assoc: true, orderShows: true, cheap: true}.withM(monoid.MergeGoMap[string, int]))
 }
 
 // content of an fp.Map through its own iterator (duplicates would show as a size mismatch)
@@ -303,9 +357,9 @@ func mapToGo(m fp.Map[string, int]) map[string]int {
 }
 
 func mergeMapInst() inst[fp.Map[string, int]] {
-	return leaf(inst[fp.Map[string, int]]{name: "monoid.MergeMap[string,int]", site: "monoid.MergeMap", mo: monoid.MergeMap[string, int](),
+	return leaf(inst[fp.Map[string, int]]{name: "monoid.MergeMap[string,int]", site: "monoid.MergeMap",
 		gen: func(r *rand.Rand) fp.Map[string, int] {
-			if r.IntN(6) == 0 {
+			if !hint.on && r.IntN(6) == 0 {
 				return fp.Map[string, int]{} // the zero value, which is also Empty()
 			}
 			var items []fp.Tuple2[string, int]
@@ -313,11 +367,24 @@ func mergeMapInst() inst[fp.Map[string, int]] {
 				items = append(items, fp.Tuple2[string, int]{I1: k, I2: v})
 			}
 			sort.Slice(items, func(i, j int) bool { return items[i].I1 < items[j].I1 })
+			if hint.on {
+				switch r.IntN(3) {
+				case 0: // built entry by entry, in a PRNG order
+					r.Shuffle(len(items), func(i, j int) { items[i], items[j] = items[j], items[i] })
+					m := immutable.Map[string, int](hash.String)
+					for _, t := range items {
+						m = m.Updated(t.I1, t.I2)
+					}
+					return m
+				case 1:
+					r.Shuffle(len(items), func(i, j int) { items[i], items[j] = items[j], items[i] })
+				}
+			}
 			return immutable.Map(hash.String, items...)
 		},
 		norm: mapContent,
 		refC: func(a, b fp.Map[string, int]) string { return unionRight(mapToGo(a), mapToGo(b)) },
-		refE: func() string { return "{}" }, assoc: true, orderShows: true})
+		refE: func() string { return "{}" }, assoc: true, orderShows: true}.withM(monoid.MergeMap[string, int]))
 }
 
 func setContent(s fp.Set[int]) string {
@@ -340,8 +407,11 @@ func setContent(s fp.Set[int]) string {
 }
 
 func mergeSetInst() inst[fp.Set[int]] {
-	return leaf(inst[fp.Set[int]]{name: "monoid.MergeSet[int]", site: "monoid.MergeSet", mo: monoid.MergeSet[int](),
+	return leaf(inst[fp.Set[int]]{name: "monoid.MergeSet[int]", site: "monoid.MergeSet",
 		gen: func(r *rand.Rand) fp.Set[int] {
+			if n, u, ok := sizeHint(); ok {
+				return immutable.Set(hash.Number[int](), pickDistinct(r, n, u)...)
+			}
 			if r.IntN(6) == 0 {
 				return fp.Set[int]{}
 			}
@@ -368,7 +438,7 @@ func mergeSetInst() inst[fp.Set[int]] {
 			sort.Ints(xs)
 			return fmt.Sprint(xs)
 		},
-		refE: func() string { return "[]" }, assoc: true})
+		refE: func() string { return "[]" }, assoc: true}.withM(monoid.MergeSet[int]))
 }
 
 // ---- fp.Map / fp.Set whose hasher has its own key equivalence -------------------------------
@@ -384,14 +454,35 @@ func (foldHasher) Hash(s string) uint32 { return hash.String.Hash(strings.ToLowe
 
 var foldKeys = []string{"a", "A", "b", "B", "c"}
 
+func foldKeyName(r *rand.Rand, k int) string {
+	if r.IntN(2) == 0 {
+		return "K" + strconv.Itoa(k)
+	}
+	return "k" + strconv.Itoa(k)
+}
+
 func foldMapContent(m fp.Map[string, int]) string {
-	var es []string
+	type kv struct {
+		k string
+		v int
+	}
+	var kvs []kv
 	it := m.Iterator()
 	for it.HasNext() {
 		t := it.Next()
-		es = append(es, strings.ToLower(t.I1)+"="+strconv.Itoa(t.I2))
+		kvs = append(kvs, kv{strings.ToLower(t.I1), t.I2})
 	}
-	sort.Strings(es)
+	// by key like fmtGoMap (the reference renders with it), two entries of one class by value
+	sort.Slice(kvs, func(i, j int) bool {
+		if kvs[i].k != kvs[j].k {
+			return kvs[i].k < kvs[j].k
+		}
+		return kvs[i].v < kvs[j].v
+	})
+	es := make([]string, len(kvs))
+	for i, e := range kvs {
+		es[i] = e.k + "=" + strconv.Itoa(e.v)
+	}
 	s := "{" + strings.Join(es, " ") + "}"
 	if m.Size() != len(es) {
 		s += fmt.Sprintf("!Size=%d", m.Size())
@@ -400,8 +491,16 @@ func foldMapContent(m fp.Map[string, int]) string {
 }
 
 func foldMapInst() inst[fp.Map[string, int]] {
-	return leaf(inst[fp.Map[string, int]]{name: "monoid.MergeMap[string,int] over maps with a case-insensitive hasher", site: "monoid.MergeMap(custom-Eqv hasher)", mo: monoid.MergeMap[string, int](),
+	return leaf(inst[fp.Map[string, int]]{name: "monoid.MergeMap[string,int] over maps with a case-insensitive hasher", site: "monoid.MergeMap(custom-Eqv hasher)",
 		gen: func(r *rand.Rand) fp.Map[string, int] {
+			if n, u, ok := sizeHint(); ok {
+				// n distinct classes of the hasher's equivalence, either spelling of each
+				items := make([]fp.Tuple2[string, int], 0, n)
+				for _, k := range pickDistinct(r, n, u) {
+					items = append(items, fp.Tuple2[string, int]{I1: foldKeyName(r, k), I2: r.IntN(100)})
+				}
+				return immutable.Map[string, int](foldHasher{}, items...)
+			}
 			if r.IntN(6) == 0 {
 				return fp.Map[string, int]{}
 			}
@@ -435,7 +534,7 @@ func foldMapInst() inst[fp.Map[string, int]] {
 			}
 			return fmtGoMap(out)
 		},
-		refE: func() string { return "{}" }, assoc: true, orderShows: true})
+		refE: func() string { return "{}" }, assoc: true, orderShows: true}.withM(monoid.MergeMap[string, int]))
 }
 
 func foldSetContent(s fp.Set[string]) string {
@@ -453,8 +552,15 @@ func foldSetContent(s fp.Set[string]) string {
 }
 
 func foldSetInst() inst[fp.Set[string]] {
-	return leaf(inst[fp.Set[string]]{name: "monoid.MergeSet[string] over sets with a case-insensitive hasher", site: "monoid.MergeSet(custom-Eqv hasher)", mo: monoid.MergeSet[string](),
+	return leaf(inst[fp.Set[string]]{name: "monoid.MergeSet[string] over sets with a case-insensitive hasher", site: "monoid.MergeSet(custom-Eqv hasher)",
 		gen: func(r *rand.Rand) fp.Set[string] {
+			if n, u, ok := sizeHint(); ok {
+				xs := make([]string, 0, n)
+				for _, k := range pickDistinct(r, n, u) {
+					xs = append(xs, foldKeyName(r, k))
+				}
+				return immutable.Set[string](foldHasher{}, xs...)
+			}
 			if r.IntN(6) == 0 {
 				return fp.Set[string]{}
 			}
@@ -488,7 +594,7 @@ func foldSetInst() inst[fp.Set[string]] {
 			sort.Strings(es)
 			return "[" + strings.Join(es, " ") + "]"
 		},
-		refE: func() string { return "[]" }, assoc: true})
+		refE: func() string { return "[]" }, assoc: true}.withM(monoid.MergeSet[string]))
 }
 
 // Endo: functions compared extensionally on 16 points. The generated functions are affine
@@ -538,10 +644,13 @@ func endoRef(f, g fp.Endo[int]) string {
 	return fmt.Sprint(out)
 }
 
-func endoInst(site string, m fp.Monoid[fp.Endo[int]], sg fp.Semigroup[fp.Endo[int]]) inst[fp.Endo[int]] {
-	in := inst[fp.Endo[int]]{name: site + "[int]", site: site, mo: m, sg: sg, gen: genEndo, norm: fmtEndo, refC: endoRef, assoc: true, orderShows: true, cheap: true}
-	if m != nil {
+func endoInst(site string, mkM func() fp.Monoid[fp.Endo[int]], mkS func() fp.Semigroup[fp.Endo[int]]) inst[fp.Endo[int]] {
+	in := inst[fp.Endo[int]]{name: site + "[int]", site: site, gen: genEndo, norm: fmtEndo, refC: endoRef, assoc: true, orderShows: true, cheap: true}
+	if mkM != nil {
 		in.refE = func() string { return fmt.Sprint(endoPoints) }
+		in = in.withM(mkM)
+	} else {
+		in = in.withS(mkS)
 	}
 	return leaf(in)
 }
@@ -585,9 +694,7 @@ func mOptionInst[T any](in inst[T]) inst[fp.Option[T]] {
 			return site
 		},
 	}
-	out.mo = monoid.Option(in.mo)
-	out.sg = out.mo
-	return out
+	return out.withM(func() fp.Monoid[fp.Option[T]] { return monoid.Option(in.mkM()) })
 }
 
 // semigroup.Option: None is neutral
@@ -600,7 +707,6 @@ func sOptionInst[T any](in inst[T]) inst[fp.Option[T]] {
 		return "None"
 	}
 	return inst[fp.Option[T]]{name: site + "(" + in.name + ")", site: site, combs: merge(site, in.combs), assoc: in.assoc,
-		sg: semigroup.Option(in.sg),
 		gen: func(r *rand.Rand) fp.Option[T] {
 			if r.IntN(3) == 0 {
 				return fp.None[T]()
@@ -623,7 +729,7 @@ func sOptionInst[T any](in inst[T]) inst[fp.Option[T]] {
 			}
 			return site
 		},
-	}
+	}.withS(func() fp.Semigroup[fp.Option[T]] { return semigroup.Option(in.mkS()) })
 }
 
 var tryErrs = []error{errors.New("e1"), errors.New("e2"), errors.New("e3")}
@@ -666,9 +772,7 @@ func mTryInst[T any](in inst[T]) inst[fp.Try[T]] {
 			return site
 		},
 	}
-	out.mo = monoid.Try(in.mo)
-	out.sg = out.mo
-	return out
+	return out.withM(func() fp.Monoid[fp.Try[T]] { return monoid.Try(in.mkM()) })
 }
 
 // Dual flips the arguments.  pkg = "monoid" or "semigroup".
@@ -686,8 +790,7 @@ func dualInst[T any](pkg string, in inst[T]) inst[fp.Dual[T]] {
 		},
 	}
 	if pkg == "monoid" {
-		out.mo = monoid.Dual(in.mo)
-		out.sg = out.mo
+		out = out.withM(func() fp.Monoid[fp.Dual[T]] { return monoid.Dual(in.mkM()) })
 		out.refE = func() string { return "Dual(" + in.refE() + ")" }
 		out.blameE = func() string {
 			if in.wrongE() {
@@ -696,7 +799,7 @@ func dualInst[T any](pkg string, in inst[T]) inst[fp.Dual[T]] {
 			return site
 		}
 	} else {
-		out.sg = semigroup.Dual(in.sg)
+		out = out.withS(func() fp.Semigroup[fp.Dual[T]] { return semigroup.Dual(in.mkS()) })
 	}
 	return out
 }
@@ -725,8 +828,7 @@ func evalInst[T any](pkg string, in inst[T]) inst[lazy.Eval[T]] {
 		},
 	}
 	if pkg == "monoid" {
-		out.mo = monoid.Eval(in.mo)
-		out.sg = out.mo
+		out = out.withM(func() fp.Monoid[lazy.Eval[T]] { return monoid.Eval(in.mkM()) })
 		out.refE = func() string { return "Eval(" + in.refE() + ")" }
 		out.blameE = func() string {
 			if in.wrongE() {
@@ -735,7 +837,7 @@ func evalInst[T any](pkg string, in inst[T]) inst[lazy.Eval[T]] {
 			return site
 		}
 	} else {
-		out.sg = semigroup.Eval(in.sg)
+		out = out.withS(func() fp.Semigroup[lazy.Eval[T]] { return semigroup.Eval(in.mkS()) })
 	}
 	return out
 }
@@ -775,12 +877,11 @@ func ptrInst[T any](pkg string, in inst[T]) inst[*T] {
 		},
 	}
 	if pkg == "monoid" {
-		out.mo = monoid.Ptr(lazy.Done(in.mo))
-		out.sg = out.mo
+		out = out.withM(func() fp.Monoid[*T] { return monoid.Ptr(lazy.Done(in.mkM())) })
 		out.refE = func() string { return "nil" }
 		out.blameE = func() string { return site }
 	} else {
-		out.sg = semigroup.Ptr(lazy.Done(in.sg))
+		out = out.withS(func() fp.Semigroup[*T] { return semigroup.Ptr(lazy.Done(in.mkS())) })
 	}
 	return out
 }
@@ -804,8 +905,7 @@ func imapInst[T any](pkg string, in inst[T]) inst[boxed[T]] {
 		},
 	}
 	if pkg == "monoid" {
-		out.mo = monoid.IMap(in.mo, box, unbox)
-		out.sg = out.mo
+		out = out.withM(func() fp.Monoid[boxed[T]] { return monoid.IMap(in.mkM(), box, unbox) })
 		out.refE = func() string { return "Boxed(" + in.refE() + ")" }
 		out.blameE = func() string {
 			if in.wrongE() {
@@ -814,7 +914,7 @@ func imapInst[T any](pkg string, in inst[T]) inst[boxed[T]] {
 			return site
 		}
 	} else {
-		out.sg = semigroup.IMap(in.sg, box, unbox)
+		out = out.withS(func() fp.Semigroup[boxed[T]] { return semigroup.IMap(in.mkS(), box, unbox) })
 	}
 	return out
 }
@@ -849,9 +949,7 @@ func hconsInst[H any, T hlist.HList](ih inst[H], it inst[T]) inst[hlist.Cons[H, 
 			return site
 		},
 	}
-	out.mo = monoid.HCons(ih.mo, it.mo)
-	out.sg = out.mo
-	return out
+	return out.withM(func() fp.Monoid[C] { return monoid.HCons(ih.mkM(), it.mkM()) })
 }
 
 // ---- the table ----------------------------------------------------------------------------
@@ -868,12 +966,17 @@ type entry struct {
 }
 
 var (
-	lawTable []entry // every instance expression
+	lawTable []*dyn  // every instance expression (law cases and history cases)
 	seqTable []entry // lawful monoids used for Reduce / FoldMap
 )
 
 func addLaw[T any](in inst[T]) inst[T] {
-	lawTable = append(lawTable, entry{in.name, in.site, in.combs, func(w *vrt.W, i int, r *rand.Rand, loc *local) { lawCase(w, i, r, loc, in) }})
+	for _, d := range lawTable {
+		if d.name == in.name {
+			panic("instance expression registered twice: " + in.name)
+		}
+	}
+	lawTable = append(lawTable, erase(in))
 	return in
 }
 
@@ -881,19 +984,20 @@ func addSeq[T any](in inst[T]) {
 	if in.mo == nil || !in.assoc {
 		panic("Reduce needs a lawful monoid: " + in.name)
 	}
-	seqTable = append(seqTable, entry{in.name, in.site, in.combs, func(w *vrt.W, i int, r *rand.Rand, loc *local) { seqCase(w, i, r, loc, in) }})
+	width := erase(in).width
+	seqTable = append(seqTable, entry{in.name, in.site, in.combs, func(w *vrt.W, i int, r *rand.Rand, loc *local) { seqCase(w, i, r, loc, in, width) }})
 }
 
 // the leaf instances referred to by the generated per-arity tables
 var (
-	iString     = strConcat("monoid.String", "monoid.String", monoid.String)
-	iSumInt     = intSum("monoid.Sum", monoid.Sum[int](), "int")
-	iSumInt8    = intSum("monoid.Sum", monoid.Sum[int8](), "int8")
-	iSumUint16  = intSum("monoid.Sum", monoid.Sum[uint16](), "uint16")
-	iSumString  = strConcat("monoid.Sum", "monoid.Sum[string]", monoid.Sum[string]())
-	iProdInt    = intProduct("monoid.Product", monoid.Product[int](), "int")
-	iProdInt8   = intProduct("monoid.Product", monoid.Product[int8](), "int8")
-	iProdUint32 = intProduct("monoid.Product", monoid.Product[uint32](), "uint32")
+	iString     = strConcat("monoid.String", "monoid.String", constM(monoid.String))
+	iSumInt     = intSum("monoid.Sum", monoid.Sum[int], "int")
+	iSumInt8    = intSum("monoid.Sum", monoid.Sum[int8], "int8")
+	iSumUint16  = intSum("monoid.Sum", monoid.Sum[uint16], "uint16")
+	iSumString  = strConcat("monoid.Sum", "monoid.Sum[string]", monoid.Sum[string])
+	iProdInt    = intProduct("monoid.Product", monoid.Product[int], "int")
+	iProdInt8   = intProduct("monoid.Product", monoid.Product[int8], "int8")
+	iProdUint32 = intProduct("monoid.Product", monoid.Product[uint32], "uint32")
 	iAny        = boolInst("monoid.Any", monoid.Any, nil, func(a, b bool) bool { return a || b }, false)
 	iAll        = boolInst("monoid.All", monoid.All, nil, func(a, b bool) bool { return a && b }, true)
 	iUnit       = unitInst()
@@ -903,36 +1007,38 @@ var (
 	iMergeGoMap = mergeGoMapInst()
 	iMergeMap   = mergeMapInst()
 	iMergeSet   = mergeSetInst()
-	iEndo       = endoInst("monoid.Endo", monoid.Endo[int](), nil)
+	iEndo       = endoInst("monoid.Endo", monoid.Endo[int], nil)
 )
 
-func semi[T any](site, name string, sg fp.Semigroup[T], like inst[T]) inst[T] {
-	like.name, like.site, like.sg, like.mo, like.refE = name, site, sg, nil, nil
-	return leaf(like)
+func semi[T any](site, name string, mk func() fp.Semigroup[T], like inst[T]) inst[T] {
+	like.name, like.site, like.refE = name, site, nil
+	return leaf(like.withS(mk))
 }
 
 func init() {
 	// --- package monoid and fp: leaves
-	for _, in := range []inst[string]{iString, iSumString, strConcat("fp.Sum", "fp.Sum[string]", fp.Sum[string]()),
-		strConcat("monoid.New", "monoid.New(zero, +)", monoid.New(func() string { return "" }, func(a, b string) string { return a + b }))} {
+	for _, in := range []inst[string]{iString, iSumString, strConcat("fp.Sum", "fp.Sum[string]", fp.Sum[string]),
+		strConcat("monoid.New", "monoid.New(zero, +)", func() fp.Monoid[string] {
+			return monoid.New(func() string { return "" }, func(a, b string) string { return a + b })
+		})} {
 		addLaw(in)
 	}
 	addLaw(iSumInt)
 	addLaw(iSumInt8)
 	addLaw(iSumUint16)
-	addLaw(intSum("monoid.Sum", monoid.Sum[int64](), "int64"))
-	addLaw(intSum("fp.Sum", fp.Sum[int](), "int"))
-	addLaw(intSum("fp.Sum", fp.Sum[uint8](), "uint8"))
+	addLaw(intSum("monoid.Sum", monoid.Sum[int64], "int64"))
+	addLaw(intSum("fp.Sum", fp.Sum[int], "int"))
+	addLaw(intSum("fp.Sum", fp.Sum[uint8], "uint8"))
 	addLaw(iProdInt)
 	addLaw(iProdInt8)
 	addLaw(iProdUint32)
-	addLaw(intProduct("monoid.Product", monoid.Product[int64](), "int64"))
-	addLaw(intProduct("fp.Product", fp.Product[int](), "int"))
-	addLaw(intProduct("fp.Product", fp.Product[int16](), "int16"))
-	addLaw(floatInst("monoid.Sum", "monoid.Sum[float64]", monoid.Sum[float64](), func(a, b float64) float64 { return a + b }, "0"))
-	addLaw(floatInst("monoid.Product", "monoid.Product[float64]", monoid.Product[float64](), func(a, b float64) float64 { return a * b }, "1"))
-	addLaw(floatInst("fp.Sum", "fp.Sum[float64]", fp.Sum[float64](), func(a, b float64) float64 { return a + b }, "0"))
-	addLaw(floatInst("fp.Product", "fp.Product[float64]", fp.Product[float64](), func(a, b float64) float64 { return a * b }, "1"))
+	addLaw(intProduct("monoid.Product", monoid.Product[int64], "int64"))
+	addLaw(intProduct("fp.Product", fp.Product[int], "int"))
+	addLaw(intProduct("fp.Product", fp.Product[int16], "int16"))
+	addLaw(floatInst("monoid.Sum", "monoid.Sum[float64]", monoid.Sum[float64], func(a, b float64) float64 { return a + b }, "0"))
+	addLaw(floatInst("monoid.Product", "monoid.Product[float64]", monoid.Product[float64], func(a, b float64) float64 { return a * b }, "1"))
+	addLaw(floatInst("fp.Sum", "fp.Sum[float64]", fp.Sum[float64], func(a, b float64) float64 { return a + b }, "0"))
+	addLaw(floatInst("fp.Product", "fp.Product[float64]", fp.Product[float64], func(a, b float64) float64 { return a * b }, "1"))
 	addLaw(iAny)
 	addLaw(iAll)
 	addLaw(iUnit)
@@ -980,17 +1086,71 @@ func init() {
 	addLaw(mOptionInst(hconsInst(iString, hconsInst(iSumInt, iHNil))))
 	addLaw(floatTuple())
 
+	// --- every wrapper over every inner instance whose Empty() is nil or zero-like (nil Seq /
+	// slice / pointer, zero-value fp.Map / fp.Set, empty Go map, "", false, Unit): a wrapper
+	// that inspects the inner Empty (nil test, zero test) instead of just carrying it shows here
+	iPtrString := ptrInst("monoid", iString)
+	addLaw(mOptionInst(iMergeSlice))
+	addLaw(mOptionInst(iMergeSet))
+	addLaw(mOptionInst(iMergeGoMap))
+	addLaw(mOptionInst(iPtrString))
+	addLaw(mOptionInst(ptrInst("monoid", iMergeSeq)))
+	addLaw(mOptionInst(iAny))
+	addLaw(mOptionInst(iUnit))
+	addLaw(mOptionInst(iSumInt))
+	addLaw(mTryInst(iMergeSeq))
+	addLaw(mTryInst(iMergeSlice))
+	addLaw(mTryInst(iMergeMap))
+	addLaw(mTryInst(iMergeGoMap))
+	addLaw(mTryInst(iPtrString))
+	addLaw(ptrInst("monoid", iMergeSeq))
+	addLaw(ptrInst("monoid", iMergeSlice))
+	addLaw(ptrInst("monoid", iMergeMap))
+	addLaw(ptrInst("monoid", iMergeSet))
+	addLaw(ptrInst("monoid", iMergeGoMap))
+	addLaw(ptrInst("monoid", iPtrString))
+	addLaw(evalInst("monoid", iMergeSeq))
+	addLaw(evalInst("monoid", iMergeSlice))
+	addLaw(evalInst("monoid", iMergeMap))
+	addLaw(evalInst("monoid", iMergeSet))
+	addLaw(evalInst("monoid", iMergeGoMap))
+	addLaw(evalInst("monoid", iPtrString))
+	addLaw(dualInst("monoid", iMergeSlice))
+	addLaw(dualInst("monoid", iMergeMap))
+	addLaw(dualInst("monoid", iMergeSet))
+	addLaw(dualInst("monoid", iPtrString))
+	addLaw(imapInst("monoid", iMergeSeq))
+	addLaw(imapInst("monoid", iMergeSlice))
+	addLaw(imapInst("monoid", iMergeMap))
+	addLaw(imapInst("monoid", iMergeSet))
+	addLaw(imapInst("monoid", iMergeGoMap))
+	addLaw(imapInst("monoid", iPtrString))
+	// ... and over inner instances whose Empty() is NOT the zero value (1, true): a wrapper that
+	// puts a zero value where the inner Empty belongs shows here
+	addLaw(dualInst("monoid", iProdInt))
+	addLaw(evalInst("monoid", iAll))
+	addLaw(imapInst("monoid", iProdInt8))
+	// the semigroup wrappers over the same container instances (a Monoid is a Semigroup)
+	addLaw(sOptionInst(iMergeSeq))
+	addLaw(sOptionInst(iMergeMap))
+	addLaw(ptrInst("semigroup", iMergeGoMap))
+	addLaw(dualInst("semigroup", iMergeSeq))
+	addLaw(evalInst("semigroup", iMergeSlice))
+	addLaw(imapInst("semigroup", iMergeSet))
+
 	// --- package semigroup
-	addLaw(semi("semigroup.Sum", "semigroup.Sum[int]", semigroup.Sum[int](), iSumInt))
-	addLaw(semi("semigroup.Sum", "semigroup.Sum[int8]", semigroup.Sum[int8](), iSumInt8))
-	addLaw(semi("semigroup.Sum", "semigroup.Sum[string]", semigroup.Sum[string](), iSumString))
-	addLaw(semi("semigroup.Product", "semigroup.Product[int]", semigroup.Product[int](0, 0), iProdInt))
-	addLaw(semi("semigroup.Product", "semigroup.Product[int8]", semigroup.Product[int8](0, 0), iProdInt8))
-	sgString := addLaw(semi("semigroup.New", "semigroup.New(+ on string)", semigroup.New(func(a, b string) string { return a + b }), iString))
-	sgAny := addLaw(semi("semigroup.Any", "semigroup.Any", semigroup.Any, iAny))
-	sgAll := addLaw(semi("semigroup.All", "semigroup.All", semigroup.All, iAll))
-	sgEndo := addLaw(endoInst("semigroup.Endo", nil, semigroup.Endo[int]()))
-	sgSumInt := semi("semigroup.Sum", "semigroup.Sum[int]", semigroup.Sum[int](), iSumInt)
+	addLaw(semi("semigroup.Sum", "semigroup.Sum[int]", semigroup.Sum[int], iSumInt))
+	addLaw(semi("semigroup.Sum", "semigroup.Sum[int8]", semigroup.Sum[int8], iSumInt8))
+	addLaw(semi("semigroup.Sum", "semigroup.Sum[string]", semigroup.Sum[string], iSumString))
+	addLaw(semi("semigroup.Product", "semigroup.Product[int]", func() fp.Semigroup[int] { return semigroup.Product[int](0, 0) }, iProdInt))
+	addLaw(semi("semigroup.Product", "semigroup.Product[int8]", func() fp.Semigroup[int8] { return semigroup.Product[int8](0, 0) }, iProdInt8))
+	sgString := addLaw(semi("semigroup.New", "semigroup.New(+ on string)", func() fp.Semigroup[string] {
+		return semigroup.New(func(a, b string) string { return a + b })
+	}, iString))
+	sgAny := addLaw(semi("semigroup.Any", "semigroup.Any", constS(semigroup.Any), iAny))
+	sgAll := addLaw(semi("semigroup.All", "semigroup.All", constS(semigroup.All), iAll))
+	sgEndo := addLaw(endoInst("semigroup.Endo", nil, semigroup.Endo[int]))
+	sgSumInt := semi("semigroup.Sum", "semigroup.Sum[int]", semigroup.Sum[int], iSumInt)
 	addLaw(dualInst("semigroup", sgString))
 	addLaw(dualInst("semigroup", sgEndo))
 	addLaw(evalInst("semigroup", sgString))
@@ -1030,304 +1190,18 @@ func init() {
 	addSeq(iMergeMap)
 	addSeq(iMergeSet)
 	addSeq(iSumString)
+	addSeq(dualInst("monoid", iMergeMap))
+	addSeq(ptrInst("monoid", iMergeSlice))
 }
 
 func floatTuple() inst[fp.Tuple2[float64, string]] {
-	return tuple2Inst(floatInst("monoid.Sum", "monoid.Sum[float64]", monoid.Sum[float64](), func(a, b float64) float64 { return a + b }, "0"), iString)
+	return tuple2Inst(floatInst("monoid.Sum", "monoid.Sum[float64]", monoid.Sum[float64], func(a, b float64) float64 { return a + b }, "0"), iString)
 }
 
 func floatSemi() inst[float64] {
-	f := floatInst("semigroup.Sum", "semigroup.Sum[float64]", nil, func(a, b float64) float64 { return a + b }, "0")
-	f.sg, f.mo, f.refE = semigroup.Sum[float64](), nil, nil
-	return f
-}
-
-// ---- law cases ----------------------------------------------------------------------------
-
-func lawCase[T any](w *vrt.W, i int, r *rand.Rand, loc *local, in inst[T]) {
-	w.Begin(i, in.site)
-	a, b, c := in.gen(r), in.gen(r), in.gen(r)
-	isMonoid := in.mo != nil
-	var na, nb, nc string
-	witness := func() any {
-		return map[string]any{"instance": in.name, "a": na, "b": nb, "c": nc}
-	}
-	failed := false
-	fail := func(key, detail string) {
-		failed = true
-		if in.raw != nil {
-			detail += "\nas stored: a = " + in.raw(a) + "  b = " + in.raw(b) + "  c = " + in.raw(c) +
-				"\n           Combine(Combine(a,b),c) = " + in.raw(in.sg.Combine(in.sg.Combine(a, b), c)) + "  Combine(a,Combine(b,c)) = " + in.raw(in.sg.Combine(a, in.sg.Combine(b, c)))
-		}
-		w.Violation(i, key, detail+"\ninstance "+in.name+"\na = "+na+"\nb = "+nb+"\nc = "+nc, witness())
-	}
-	w.Guard(i, witness, func() {
-		if isMonoid {
-			// the identity takes part in triples as well
-			for k, p := range []*T{&a, &b, &c} {
-				if r.IntN(8) == 0 {
-					*p = in.mo.Empty()
-					loc.add("triples.with_identity_at_"+strconv.Itoa(k+1), 1)
-				}
-			}
-		}
-		if r.IntN(10) == 0 {
-			b = a
-		}
-		na, nb, nc = in.norm(a), in.norm(b), in.norm(c)
-		firstBlame := ""
-		named := func(x, y T, what string) T {
-			got := in.sg.Combine(x, y)
-			if g, want := in.norm(got), in.refC(x, y); g != want {
-				bl := in.blame(x, y)
-				if firstBlame == "" {
-					firstBlame = bl
-				}
-				fail(bl+"/combine-not-as-named", fmt.Sprintf("Combine(%s) = %s, but the instance is named/defined to give %s\nx = %s\ny = %s", what, g, want, in.norm(x), in.norm(y)))
-			}
-			loc.add("checks.named", 1)
-			return got
-		}
-		w.Site(in.site + ".Combine")
-		ab := named(a, b, "a, b")
-		nab := in.norm(ab)
-		bc := named(b, c, "b, c")
-		nbc := in.norm(bc)
-		l := named(ab, c, "Combine(a,b), c")
-		rr := named(a, bc, "a, Combine(b,c)")
-		if in.assoc {
-			if nl, nr := in.norm(l), in.norm(rr); nl != nr {
-				bl := firstBlame
-				if bl == "" {
-					bl = in.site
-				}
-				fail(bl+"/not-associative", fmt.Sprintf("Combine(Combine(a,b),c) = %s but Combine(a,Combine(b,c)) = %s", nl, nr))
-			}
-			loc.add("checks.associativity", 1)
-		} else {
-			loc.add("checks.associativity_skipped_float", 1)
-		}
-		if isMonoid {
-			w.Site(in.site + ".Empty")
-			e := in.mo.Empty()
-			if ne, want := in.norm(e), in.refE(); ne != want {
-				fail(in.blameE()+"/empty-not-as-named", fmt.Sprintf("Empty() = %s, expected %s", ne, want))
-			}
-			w.Site(in.site + ".Combine")
-			for _, x := range []T{a, c} {
-				nx := in.norm(x)
-				if g := in.norm(in.mo.Combine(e, x)); g != nx {
-					bl := in.site
-					if in.wrong(e, x) {
-						bl = in.blame(e, x)
-					} else if in.wrongE() {
-						bl = in.blameE()
-					}
-					fail(bl+"/left-identity", fmt.Sprintf("Combine(Empty(), x) = %s for x = %s (Empty() = %s)", g, nx, in.norm(e)))
-				}
-				if g := in.norm(in.mo.Combine(x, e)); g != nx {
-					bl := in.site
-					if in.wrong(x, e) {
-						bl = in.blame(x, e)
-					} else if in.wrongE() {
-						bl = in.blameE()
-					}
-					fail(bl+"/right-identity", fmt.Sprintf("Combine(x, Empty()) = %s for x = %s (Empty() = %s)", g, nx, in.norm(e)))
-				}
-				loc.add("checks.identity", 2)
-			}
-		}
-		// inputs must still render the same (Combine must not write into its arguments:
-		// MergeSeq on a slice with spare capacity, MergeGoMap, Ptr)
-		if in.norm(a) != na || in.norm(b) != nb || in.norm(c) != nc {
-			fail(in.site+"/arguments-modified", fmt.Sprintf("after the calls the arguments render as a=%s b=%s c=%s", in.norm(a), in.norm(b), in.norm(c)))
-		}
-		// ... and earlier results are values: a later Combine must not change them (two
-		// results appended into the same spare capacity would)
-		if g := in.norm(ab); g != nab {
-			fail(in.site+"/result-changed-by-later-combine", fmt.Sprintf("Combine(a,b) rendered %s, after further Combine calls it renders %s", nab, g))
-		}
-		if g := in.norm(bc); g != nbc {
-			fail(in.site+"/result-changed-by-later-combine", fmt.Sprintf("Combine(b,c) rendered %s, after further Combine calls it renders %s", nbc, g))
-		}
-	})
-	w.Done(i)
-	_ = failed
-	loc.add("triples", 1)
-	loc.add("inst."+in.name, 1)
-	for _, s := range in.combs {
-		loc.add("hit."+s, 1)
-	}
-	if isMonoid {
-		loc.add("triples.monoid", 1)
-	} else {
-		loc.add("triples.semigroup_only", 1)
-	}
-	// non-trivial: no operand is the identity and the three are not all equal
-	nontrivial := !(na == nb && nb == nc)
-	if isMonoid {
-		e := in.refE()
-		if na == e || nb == e || nc == e {
-			nontrivial = false
-		}
-	}
-	if nontrivial {
-		loc.add("triples.nontrivial", 1)
-		w.DistinctHash(vrt.Hash64("law|" + in.name + "|" + na + "|" + nb + "|" + nc))
-		if w.WantSample() && r.IntN(200) == 0 {
-			w.Sample(witness())
-		}
-	}
-}
-
-// ---- Reduce / FoldMap cases ---------------------------------------------------------------
-
-func seqCase[T any](w *vrt.W, i int, r *rand.Rand, loc *local, in inst[T]) {
-	w.Begin(i, "Reduce")
-	// length
-	n := 0
-	switch k := r.IntN(20); {
-	case k == 0:
-		n = 0
-	case k == 1:
-		n = 1
-	case k == 2:
-		n = 2
-	case k < 17:
-		n = 3 + r.IntN(30)
-	case k < 19:
-		n = 40 + r.IntN(200)
-	default:
-		n = 300 + r.IntN(700)
-		if w.Tier == "thorough" {
-			n = 300 + r.IntN(1500)
-		}
-		if !in.cheap {
-			n = 40 + r.IntN(100)
-		}
-	}
-	xs := make([]T, n)
-	for k := range xs {
-		xs[k] = in.gen(r)
-		if r.IntN(12) == 0 {
-			xs[k] = in.mo.Empty()
-		}
-	}
-	m := in.mo
-	norms := func() []string {
-		out := make([]string, 0, 12)
-		for k, x := range xs {
-			if k >= 12 {
-				out = append(out, fmt.Sprintf("… %d more", len(xs)-12))
-				break
-			}
-			out = append(out, in.norm(x))
-		}
-		return out
-	}
-	witness := func() any {
-		return map[string]any{"monoid": in.name, "length": n, "elements": norms()}
-	}
-	var want, wantRev string
-	w.Guard(i, witness, func() {
-		// the definition: plain left fold of the instance's own Combine from Empty
-		acc := m.Empty()
-		for _, x := range xs {
-			acc = m.Combine(acc, x)
-		}
-		want = in.norm(acc)
-		rev := m.Empty()
-		for k := len(xs) - 1; k >= 0; k-- {
-			rev = m.Combine(rev, xs[k])
-		}
-		wantRev = in.norm(rev)
-		emptyN := in.norm(m.Empty())
-		check := func(site string, got T) {
-			loc.add("sequences."+site, 1)
-			loc.add("hit."+site, 1)
-			g := in.norm(got)
-			if g == want {
-				return
-			}
-			hint := ""
-			switch {
-			case g == emptyN:
-				hint = " (that is Empty(): the elements were ignored)"
-			case g == wantRev:
-				hint = " (that is the fold of the reversed sequence)"
-			}
-			w.Violation(i, site+"/not-left-fold", fmt.Sprintf("%s over %d elements with %s = %s%s\nplain left fold of Combine from Empty = %s\nelements %v", site, n, in.name, g, hint, want, norms()), witness())
-		}
-		budget := vrt.NewBudget(int64(4*n+16), "FoldMap callback calls for "+strconv.Itoa(n)+" elements")
-		idx := make([]int, n)
-		for k := range idx {
-			idx[k] = k
-		}
-		at := func(k int) T { budget.Tick(); return xs[k] }
-
-		w.Site("seq.Reduce")
-		check("seq.Reduce", seq.Reduce(fp.Seq[T](xs), m))
-
-		w.Site("iterator.Reduce")
-		var it fp.Iterator[T]
-		switch r.IntN(3) {
-		case 0:
-			it = iterator.FromSeq(fp.Seq[T](xs))
-		case 1:
-			it = iterator.Of(xs...)
-		default:
-			pos := 0
-			nb := vrt.NewBudget(int64(4*n+16), "HasNext/Next calls")
-			it = fp.MakeIterator(func() bool { nb.Tick(); return pos < len(xs) }, func() T { nb.Tick(); pos++; return xs[pos-1] })
-		}
-		check("iterator.Reduce", iterator.Reduce(it, m))
-
-		w.Site("list.Reduce")
-		var l fp.List[T]
-		switch r.IntN(3) {
-		case 0:
-			l = list.FromSeq(fp.Seq[T](xs))
-		case 1:
-			l = list.Of(xs...)
-		default:
-			l = list.Empty[T]()
-			for k := len(xs) - 1; k >= 0; k-- {
-				l = list.Apply(xs[k], l)
-			}
-		}
-		check("list.Reduce", list.Reduce(l, m))
-
-		w.Site("seq.FoldMap")
-		check("seq.FoldMap", seq.FoldMap(fp.Seq[int](idx), m, at))
-
-		w.Site("list.FoldMap")
-		check("list.FoldMap", list.FoldMap(list.FromSeq(fp.Seq[int](idx)), m, at))
-	})
-	w.Done(i)
-	loc.add("sequences", 1)
-	loc.add("seqinst."+in.name, 1)
-	if n > 300 {
-		loc.add("sequences.longer_than_300", 1)
-	}
-	if n == 0 {
-		loc.add("sequences.empty", 1)
-	}
-	w.Max("max_sequence_length", int64(n))
-	// non-trivial: at least 3 elements and the order of combination shows in the result
-	if n >= 3 && want != wantRev {
-		loc.add("sequences.order_sensitive", 1)
-		h := "seq|" + in.name
-		for _, x := range xs {
-			h += "|" + in.norm(x)
-			if len(h) > 4000 {
-				break
-			}
-		}
-		w.DistinctHash(vrt.Hash64(h))
-		if w.WantSample() && n <= 8 && r.IntN(50) == 0 {
-			w.Sample(witness())
-		}
-	}
+	f := floatInst("semigroup.Sum", "semigroup.Sum[float64]", monoid.Sum[float64], func(a, b float64) float64 { return a + b }, "0")
+	f.refE = nil
+	return f.withS(semigroup.Sum[float64])
 }
 
 // ---- main ---------------------------------------------------------------------------------
@@ -1354,7 +1228,7 @@ func main() {
 		if tier == "thorough" {
 			return 16000
 		}
-		return 4000
+		return 5000
 	}
 	vrt.Main(vrt.Config{
 		Property: "C11",
@@ -1371,12 +1245,17 @@ func main() {
 			for i := w.From; i < w.To; i++ {
 				g := w.Batch*pb + i
 				r := w.Rand(i)
-				if g%8 == 7 {
+				switch slot := g % 8; slot {
+				case 7:
 					e := seqTable[(g/8)%len(seqTable)]
 					e.run(w, i, r, loc)
-				} else {
-					e := lawTable[((g/8)*7+g%8)%len(lawTable)]
-					e.run(w, i, r, loc)
+				case 3:
+					histCase(w, i, r, loc, lawTable[(g/8)%len(lawTable)])
+				default:
+					if slot > 3 {
+						slot--
+					}
+					lawCase(w, i, r, loc, lawTable[((g/8)*6+slot)%len(lawTable)])
 				}
 			}
 			ks := make([]string, 0, len(loc.c))
@@ -1388,9 +1267,10 @@ func main() {
 				w.Add(k, loc.c[k])
 			}
 		},
-		Rule: "7 of 8 cases are law cases, 1 of 8 a sequence case; instances are taken round-robin from a table of instance expressions (all leaves of package monoid/semigroup/fp at several widths, every combinator alone and nested, every Tuple arity 2..21 with three component patterns). Law case: a PRNG triple (a,b,c) (operands are the identity with probability 1/8 each, b=a with 1/10; integers include arbitrary bit patterns so overflow occurs; maps/sets draw keys from a 5..8 element universe so they overlap; Endo values are affine/constant/shift/permutation functions compared on 16 points; fp.Map/fp.Set compared by iterated content; nil ≡ empty) on which are checked: Combine(x,y) renders as the plain-Go reference of the named behaviour for the four pairs (a,b),(b,c),(ab,c),(a,bc); Combine(Combine(a,b),c) = Combine(a,Combine(b,c)) (not for float instances); Empty() as named; Combine(Empty,x)=x=Combine(x,Empty) for x in {a,c}; arguments unchanged. Sequence case: a PRNG sequence (length 0,1,2, 3..32, 40..240, 300..1000, thorough 300..1800) over one of 21 lawful monoids, 16 of them non-commutative; seq.Reduce, iterator.Reduce (FromSeq / Of / MakeIterator sources), list.Reduce (FromSeq / Of / cons-built lists), seq.FoldMap and list.FoldMap must render like the plain loop acc = Combine(acc, x) from Empty(). distinct_nontrivial counts distinct fingerprints of (instance, a, b, c) with no operand equal to the identity and not a=b=c, plus (monoid, sequence) with ≥ 3 elements whose reversed fold differs from the fold (the order of combination shows in the result).",
+		Rule: "Of every 8 cases 6 are law cases, 1 a history case, 1 a sequence case; instances are taken round-robin from a table of instance expressions (all leaves of package monoid/semigroup/fp at several widths, every combinator alone and nested, every wrapper Option/Try/Ptr/Eval/Dual/IMap over every container instance and over inner instances whose Empty is nil/zero-like and over some whose Empty is not the zero value, every Tuple arity 2..21 with three component patterns). Law case: a PRNG triple (a,b,c) (operands are the identity with probability 1/8 each, b=a with 1/10; integers include arbitrary bit patterns so overflow occurs; maps/sets draw keys from a 5..8 element universe so they overlap; Endo values are affine/constant/shift/permutation functions compared on 16 points; fp.Map/fp.Set compared by iterated content; nil ≡ empty); in 1 of 5 law cases every container-valued leaf (String, MergeSeq/Slice/GoMap/Map/Set, also inside wrappers/tuples/hlists) of the three operands is drawn with an exact size from the shapes tiny(1..5)/large/tiny, large/tiny/large, equal large, tiny/tiny/large, large/large/tiny, independent, large ∈ {15,16,17,31,32,33,63,64,65,100,128,129,257,1000} (bounded by 1300 entries per operand over all leaves), keys/elements of all three from one universe of 1.25×max so that a key of a small operand lies in a large one with p≈0.8, values drawn independently so that bias on shared keys shows. Checked: Combine(x,y) renders as the plain-Go reference of the named behaviour for the four pairs (a,b),(b,c),(ab,c),(a,bc), evaluated in one of three orders so that a result is also the left/right operand of the very next Combine; Combine(Combine(a,b),c) = Combine(a,Combine(b,c)) (not for float instances); Empty() as named; Combine(Empty,x)=x=Combine(x,Empty) for x in {a,c,Combine(a,b)}; the Empty() value used as operand and the next Empty() still render as named; arguments unchanged; all four results re-read after all later Combines. History case: the instance expression is built twice by new constructor calls (#0,#1) and the table's long-lived instance is #2; 3..6 inputs (1 in 3 cases with tiny/large sizes as above) and the Empty() of each instance are kept; 6..20 PRNG steps Combine kept values on a PRNG instance (mostly the previous one): latest result as left operand, as right operand, the previous left operand once more, a result with itself, a kept Empty() value on either side, two earlier results, any two kept values; results are kept as returned. Before a step the operands are re-rendered and must equal the reference rendering recorded when they were made, the expectation is the plain-Go reference on them, after the step the operands are re-rendered, at a PRNG midpoint and at the end every kept value is, and at the end every kept and a new Empty() of every instance must be a two-sided identity of a kept value. Sequence case: a PRNG sequence (length 0,1,2, 3..32, a boundary length from {15,16,17,31,32,33,63,64,65,100,127,128,129,255,256,257,1000}, 40..240, 300..1000, thorough 300..1800) over one of the lawful monoids of the table, most of them non-commutative; elements as drawn by the ordinary generators, or (1 in 4) 'growing': 1..4 entries each over a universe of 40..340 keys so that the accumulator grows through 16/32/64/128/256 entries, or (1 in 4, length ≤ 24) 'lopsided': tiny and large elements mixed; seq.Reduce, iterator.Reduce (FromSeq / Of / MakeIterator sources), list.Reduce (FromSeq / Of / cons-built lists), seq.FoldMap and list.FoldMap must render like the plain loop acc = Combine(acc, x) from Empty(), and the plain loop run again afterwards gives the same. distinct_nontrivial counts distinct fingerprints of (instance, a, b, c) with no operand equal to the identity and not a=b=c, plus (monoid, sequence) with ≥ 3 elements whose reversed fold differs from the fold (the order of combination shows in the result), plus (instance, inputs, script) of histories in which results were fed back both as left and as right operands.",
 		Assumptions: []string{
 			"floating-point Sum/Product are checked for named behaviour and identity only (associativity does not hold for floats and is not demanded)",
+			"an instance is an object whose Combine/Empty are functions of the VALUES of their operands: results may alias operands (Combine(a,Empty) may return a itself) but no call may change what an operand, an earlier result or an Empty() value renders as; two instances of one expression are interchangeable, also within one history",
 			"functions (Endo) are compared extensionally on a fixed 16-point domain",
 			"fp.Map / fp.Set operands are built with hash.String / hash.Number, with a case-insensitive hasher (own instance entries, compared modulo that equivalence) or are the zero value; all operands of one triple use the same hasher",
 			"monoid.Try: any failure counts as the absorbing element, which error survives is not compared",
@@ -1399,12 +1279,32 @@ func main() {
 		},
 		Floors: func(tier string) map[string]int64 {
 			f := map[string]int64{"triples.nontrivial": 50000, "sequences.order_sensitive": 5000, "sequences.longer_than_300": 100, "sequences.empty": 50,
-				"checks.associativity": 100000, "checks.identity": 100000, "triples.semigroup_only": 10000}
+				"checks.associativity": 100000, "checks.identity": 100000, "triples.semigroup_only": 10000,
+				// sizes
+				"triples.sized": 10000, "triples.sized.small_left_large_right": 4000, "triples.sized.large_left_small_right": 4000, "triples.sized.equal_large": 2000,
+				"triples.sized.operand_size.tiny": 10000, "triples.sized.operand_size.15-31": 5000, "triples.sized.operand_size.32-63": 4000, "triples.sized.operand_size.64-127": 4000,
+				"triples.sized.operand_size.128-256": 2500, "triples.sized.operand_size.257": 400, "triples.sized.operand_size.1000": 150,
+				"sequences.boundary_length": 2000, "sequences.elements_growing": 2500, "sequences.elements_lopsided": 1500, "sequences.refolded_afterwards": 5000,
+				// result persistence and instance state
+				"checks.result_reread": 300000, "checks.empty_after_use": 120000,
+				"histories": 15000, "histories.nontrivial": 15000, "histories.steps": 150000, "histories.sized": 3000,
+				"histories.result_as_left_operand": 100000, "histories.result_as_right_operand": 100000,
+				"histories.latest_result_as_left_operand_of_same_instance": 50000, "histories.latest_result_as_right_operand_of_same_instance": 40000,
+				"histories.result_combined_with_itself": 25000, "histories.kept_empty_as_operand": 30000, "histories.same_left_operand_twice_in_a_row": 15000,
+				"histories.steps_on_second_instance": 60000, "histories.steps_on_table_instance": 30000, "histories.result_of_other_instance_as_operand": 60000,
+				"histories.kept_values_reread": 1000000, "histories.identity_checks_after_use": 100000}
+			for _, n := range boundaryLengths {
+				f["sequences.boundary_length."+strconv.Itoa(n)] = 60
+			}
 			for _, s := range requiredSites() {
 				f["hit."+s] = 500
 			}
-			for _, e := range lawTable {
-				f["inst."+e.name] = 100
+			for _, d := range lawTable {
+				f["inst."+d.name] = 100
+				f["histinst."+d.name] = 60
+				if d.width > 0 {
+					f["sizedinst."+d.name] = 50
+				}
 			}
 			for _, e := range seqTable {
 				f["seqinst."+e.name] = 100
@@ -1419,13 +1319,25 @@ func main() {
 		Finish: func(tier string, m *vrt.Merged, cov map[string]any) {
 			cov["instance_expressions"] = len(lawTable)
 			cov["reduce_monoids"] = len(seqTable)
-			hit := 0
-			for _, e := range lawTable {
-				if m.Counters["inst."+e.name] > 0 {
+			hit, hist, sized, sizedHit := 0, 0, 0, 0
+			for _, d := range lawTable {
+				if m.Counters["inst."+d.name] > 0 {
 					hit++
+				}
+				if m.Counters["histinst."+d.name] > 0 {
+					hist++
+				}
+				if d.width > 0 {
+					sized++
+					if m.Counters["sizedinst."+d.name] > 0 {
+						sizedHit++
+					}
 				}
 			}
 			cov["instance_expressions_exercised"] = hit
+			cov["instance_expressions_with_histories"] = hist
+			cov["instance_expressions_with_container_leaves"] = sized
+			cov["instance_expressions_with_sized_operands"] = sizedHit
 		},
 	})
 }
